@@ -595,6 +595,6 @@ PROPS = {
     'history': (prop_history, 1100, 50000),
     'vedge': (prop_vedge, 200, 8000),
     'sle': (prop_sle, 250, 12000),
-    'vlle': (prop_vlle, 64, 1500, {'shrink': False}),
+    'vlle': (prop_vlle, 96, 1500, {'shrink': False}),
     'mix_vle': (prop_mix, 250, 10000),
 }
